@@ -408,7 +408,10 @@ func (g *vfG) Map(t reflect.Type, tag vfTag, path string) interface{} {
 		case reflect.String:
 			k = g.MapKey(path)
 		case reflect.Int, reflect.Int32, reflect.Int64:
-			kv := g.pickInt(path, "key", 0, 1, 2, 5, -1)
+			kv := g.pickInt(path, "key", 0, 1, 2, 5)
+			if g.chance(path, "negative-key", 5) {
+				kv = -1
+			}
 			if kv < 0 {
 				g.bounds[vfLeaf(path)+":negative-key"] = true
 			}
@@ -486,7 +489,11 @@ func (g *vfG) Int(t reflect.Type, tag vfTag, path string) interface{} {
 		add(0, "zero")
 		add(1, "one")
 		if !unsigned {
-			add(-1, "negative")
+			if leaf == "matchindex" || leaf == "topicindex" {
+				addBad(-1, "negative")
+			} else {
+				add(-1, "negative")
+			}
 		}
 	}
 	add(2, "small")
@@ -531,6 +538,16 @@ func (g *vfG) String(tag vfTag, path string) string {
 	}
 	switch tag.format {
 	case "duration":
+		if leaf == "limitrefreshperiod" {
+			s := g.pickGB(path, "dur", 6, []string{"1ms", "2ms", "1ns", "10ms"}, []string{"0s", "-1s", "nope"})
+			switch s {
+			case "0s":
+				g.bounds[leaf+":zero-duration"] = true
+			case "-1s":
+				g.bounds[leaf+":negative-duration"] = true
+			}
+			return s
+		}
 		s := g.pickGB(path, "dur", 3, []string{"1ms", "2ms", "1ns", "5ms", "0s", "-1s", "10ms"}, []string{"nope"})
 		switch s {
 		case "0s":
@@ -594,9 +611,9 @@ func (g *vfG) String(tag vfTag, path string) string {
 	case "etcdkey":
 		return g.pick(path, "etcdkey", "k1", "k2", "")
 	case "endpoint":
-		return g.pick(path, "endpoint", p.BackendURL+"/introspect", p.BackendURL+"/status/500", p.DeadURL, "", "%zz", "http://[::1")
+		return g.pickGB(path, "endpoint", 6, []string{p.BackendURL + "/introspect", p.BackendURL + "/status/500", p.DeadURL, ""}, []string{"%zz", "http://[::1"})
 	case "template":
-		return g.pick(path, "tmpl", vfTemplates...)
+		return g.vfTemplate(path)
 	case "protocol":
 		return g.pickGB(path, "proto", 4, []string{"http", "HTTP", "mqtt"}, []string{"", "x"})
 	case "sourcenamespace", "namespace":
@@ -690,16 +707,26 @@ func (g *vfG) String(tag vfTag, path string) string {
 	return g.pick(path, "str", "a", "", "b", "x-y")
 }
 
-// templates for RequestBuilder / ResponseBuilder (default delimiters unless noted)
+// vfTemplate draws a template: mostly ones that parse, sometimes ones that validation must reject.
+func (g *vfG) vfTemplate(path string) string {
+	return g.pickGB(path, "tmpl", 8, vfTemplates, vfBadTemplates)
+}
+
+// templates that do not parse (with the default delimiters)
+var vfBadTemplates = []string{
+	"{{",
+	"{{ nosuchfunc 1 }}",
+	"{{ .a | }}",
+}
+
+// templates for RequestBuilder / ResponseBuilder that parse with the default delimiters
 var vfTemplates = []string{
 	"method: GET\nurl: http://127.0.0.1:1/x\n",
 	"statusCode: 200\nbody: hi\n",
 	"method: {{ .requests.DEFAULT.Method }}\nurl: /y\nbody: {{ .requests.DEFAULT.Body }}\n",
 	"statusCode: {{ .responses.DEFAULT.StatusCode }}\n",
 	"",
-	"{{",                       // does not parse
 	"{{ .requests.nope.Method }}", // executes with error / nil
-	"{{ nosuchfunc 1 }}",       // unknown function: parse error
 	"[[ .x ]]",
 	"- a\n- b\n",                // YAML of the wrong shape
 	"statusCode: 99999\n",
@@ -989,6 +1016,20 @@ func vfKindFixup(g *vfG, kind string, t reflect.Type, m map[string]interface{}) 
 				}
 			}
 		}
+		if sm, ok := m["signature"].(map[string]interface{}); ok {
+			if ak, _ := sm["accessKeys"].(map[interface{}]interface{}); len(ak) == 0 && g.chance("signature.accessKeys", "fix", 92) {
+				sm["accessKeys"] = map[interface{}]interface{}{"ak1": "secret1"}
+			}
+		}
+		if om, ok := m["oauth2"].(map[string]interface{}); ok {
+			if om["jwt"] == nil && om["tokenIntrospect"] == nil && g.chance("oauth2", "fix", 92) {
+				if g.chance("oauth2", "mode", 50) {
+					om["jwt"] = map[string]interface{}{"algorithm": "HS256", "secret": "6d79736563726574"}
+				} else {
+					om["tokenIntrospect"] = map[string]interface{}{"endPoint": g.pools.BackendURL + "/introspect"}
+				}
+			}
+		}
 		if bm, ok := m["basicAuth"].(map[string]interface{}); ok {
 			if s, _ := bm["mode"].(string); s == "" || s == "bogus" {
 				bm["mode"] = g.pick("basicAuth.mode", "mode", "FILE", "ETCD")
@@ -998,7 +1039,7 @@ func vfKindFixup(g *vfG, kind string, t reflect.Type, m map[string]interface{}) 
 		if g.chance("builder", "template", 75) {
 			delete(m, "sourceNamespace")
 			if s, _ := m["template"].(string); s == "" {
-				m["template"] = g.pick("template", "tmpl", vfTemplates...)
+				m["template"] = g.vfTemplate("template")
 			}
 			g.present["template"] = true
 		} else {
@@ -1008,6 +1049,15 @@ func vfKindFixup(g *vfG, kind string, t reflect.Type, m map[string]interface{}) 
 		}
 		if p, ok := m["protocol"].(string); ok && p != "http" && p != "HTTP" && p != "mqtt" {
 			delete(m, "protocol")
+		}
+		if m["leftDelim"] != nil || m["rightDelim"] != nil {
+			switch g.pickGB("delims", "style", 10, []string{"default", "default", "brackets"}, []string{"keep"}) {
+			case "default":
+				delete(m, "leftDelim")
+				delete(m, "rightDelim")
+			case "brackets":
+				m["leftDelim"], m["rightDelim"] = "[[", "]]"
+			}
 		}
 	case "HeaderLookup":
 		if s, _ := m["headerKey"].(string); s == "" {
